@@ -905,6 +905,13 @@ class Interp:
         name = self.resolve(c)
         if name:
             return self.call_fn(name, argv)
+        # `ne` of a (derived) PartialEq impl is the trait's default method: !eq
+        mm = re.fullmatch(r"(<.* as PartialEq(?:<.*>)?>)::ne", c)
+        if mm:
+            name = self.resolve(mm.group(1) + "::eq")
+            if name:
+                r = self.call_fn(name, argv)
+                return z3.Not(r) if z3.is_expr(r) else (not r)
         # closures / fn items called through Fn traits
         raise Inconclusive("no model and no MIR for callee: " + c[:160])
 
